@@ -9,6 +9,8 @@ All strategies return plain nested lists (JSON values). Families:
 * structured signals on top of either: level shifts, spikes, bumps on column subsets.
 """
 
+import math
+
 from hypothesis import strategies as st
 
 
@@ -89,6 +91,8 @@ def structured_matrix(draw, n, p, exact=None, boundary_positions=(), max_shifts=
     def columns(m):
         return [j for j in range(p) if (m >> j) & 1]
 
+    # readings rounded to one decimal / to whole numbers (instrument resolution): near-ties and exact ties in float data
+    quantise = draw(st.sampled_from([None, None, None, None, None, None, 1, 0])) if not exact else None
     counts = [draw(st.integers(0, k)) for k in (max_shifts, max_spikes, max_bumps)]
     shifts = [(draw(pos), draw(mag), draw(mask)) for _ in range(max_shifts)][:counts[0]]
     spikes = [(draw(pos), draw(mag), draw(mask)) for _ in range(max_spikes)][:counts[1]]
@@ -119,13 +123,41 @@ def structured_matrix(draw, n, p, exact=None, boundary_positions=(), max_shifts=
         for i in range(a, b):
             for j in columns(cm):
                 X[i][j] += float(m)
+    if quantise is not None and (sc is None or sc >= 0.05):
+        X = [[round(v, quantise) for v in row] for row in X]
+        meta["quantised"] = quantise
     return X, meta
 
 
 @st.composite
 def any_matrix(draw, n, p):
     """Mixture of the families; returns X only."""
-    kind = draw(st.sampled_from(["structured", "exact", "generic", "plateau", "offset_scale", "constant", "structured", "identical_spikes"]))
+    kind = draw(st.sampled_from(["structured", "exact", "generic", "plateau", "offset_scale", "constant", "structured", "identical_spikes",
+                                 "periodic", "trend", "rounded"]))
+    if kind in ("periodic", "trend", "rounded"):
+        # shapes of real measurements: a seasonal cycle, a drift, readings rounded to one decimal (many exact ties) -
+        # each with optional level shifts on top and small noise
+        period = draw(st.sampled_from([2, 3, 7, 12, 24]))
+        amp = draw(st.sampled_from([1.0, 5.0, 0.3]))
+        slope = draw(st.sampled_from([0.1, -0.05, 1.0, 0.01]))
+        shift_at = [draw(st.integers(0, n - 1)) for _ in range(draw(st.integers(0, 2)))]
+        shift_by = draw(st.sampled_from([3.0, -2.0, 0.5]))
+        noise_amp = draw(st.sampled_from([0.1, 0.5, 0.0]))
+        Z = draw(noise_matrix(n, p, False))
+        X = []
+        for i in range(n):
+            row = []
+            for j in range(p):
+                if kind == "periodic":
+                    v = amp * math.sin(2 * math.pi * (i + j) / period)
+                elif kind == "trend":
+                    v = slope * i * (1 + j)
+                else:
+                    v = amp * math.sin(0.37 * i + j)
+                v += shift_by * sum(1 for t in shift_at if i >= t) + noise_amp * Z[i][j]
+                row.append(round(v, 1) if kind == "rounded" else v)
+            X.append(row)
+        return X
     if kind == "identical_spikes":
         # a quantised signal that is constant except for a few isolated readings of one identical size (a counter that is 0
         # except for saturated readings): exactly equal, flat-topped score peaks in separate places
